@@ -202,99 +202,77 @@ fn c19_text_case(bytes: &[u8], stats: &mut Stats) -> Verdict {
 }
 
 /// preconditions of the listed `Schema::new` panics, recognised in raw schema text
-/// the document without block strings, strings and comments (a `schema {` inside a description is not a schema block)
-fn strip_strings_and_comments(text: &str) -> String {
-    let cs: Vec<char> = text.chars().collect();
-    let mut out = String::with_capacity(text.len());
-    let mut i = 0;
-    while i < cs.len() {
-        if cs[i] == '"' && i + 2 < cs.len() && cs[i + 1] == '"' && cs[i + 2] == '"' {
-            i += 3;
-            while i < cs.len() && !(cs[i] == '"' && i + 2 < cs.len() && cs[i + 1] == '"' && cs[i + 2] == '"') {
-                if cs[i] == '\\' {
-                    i += 1;
-                }
-                i += 1;
-            }
-            i += 3;
-            out.push(' ');
-        } else if cs[i] == '"' {
-            i += 1;
-            while i < cs.len() && cs[i] != '"' && cs[i] != '\n' {
-                if cs[i] == '\\' {
-                    i += 1;
-                }
-                i += 1;
-            }
-            i += 1;
-            out.push(' ');
-        } else if cs[i] == '#' {
-            while i < cs.len() && cs[i] != '\n' {
-                i += 1;
-            }
-        } else {
-            out.push(cs[i]);
-            i += 1;
-        }
-    }
-    out
-}
-
 pub fn derive_schema_labels(text: &str) -> Vec<&'static str> {
-    use regex::Regex;
-    let stripped = strip_strings_and_comments(text);
-    let text = stripped.as_str();
-    thread_local! {
-        static RX: (Regex, Regex, Regex, Regex) = (
-            Regex::new(r"(?:^|[\s}])schema\s*(?:@\w+(?:\([^)]*\))?\s*)*\{").unwrap(),
-            Regex::new(r"directive\s+@(\w+)").unwrap(),
-            Regex::new(r"scalar\s+(\w+)").unwrap(),
-            Regex::new(r"query\s*:\s*(\w+)").unwrap(),
-        );
+    // structural, with the engine's own parser (a regular expression over the raw text was fooled by descriptions,
+    // commas-as-whitespace and `type Int`): a document that does not parse never reaches `Schema::new`
+    use async_graphql_parser::types::{TypeKind, TypeSystemDefinition};
+    let Ok(doc) = async_graphql_parser::parse_schema(text) else { return vec![] };
+    let mut labels: Vec<&'static str> = vec![];
+    let mut blocks = 0usize;
+    let mut roots: Vec<String> = vec![];
+    let mut directives = std::collections::BTreeSet::new();
+    let mut scalars = std::collections::BTreeSet::new();
+    let mut objects = std::collections::BTreeSet::new();
+    let mut interfaces = std::collections::BTreeSet::new();
+    let (mut dup_directive, mut dup_scalar, mut builtin) = (false, false, false);
+    for def in &doc.definitions {
+        match def {
+            TypeSystemDefinition::Schema(s) => {
+                blocks += 1;
+                if let Some(q) = &s.node.query {
+                    roots.push(q.node.to_string());
+                }
+            }
+            TypeSystemDefinition::Directive(d) => {
+                if !directives.insert(d.node.name.node.to_string()) {
+                    dup_directive = true;
+                }
+            }
+            TypeSystemDefinition::Type(t) => {
+                let name = t.node.name.node.to_string();
+                if ["Int", "Float", "String", "Boolean", "ID"].contains(&name.as_str()) {
+                    builtin = true;
+                }
+                match &t.node.kind {
+                    TypeKind::Scalar => {
+                        if !scalars.insert(name) {
+                            dup_scalar = true;
+                        }
+                    }
+                    TypeKind::Object(_) => {
+                        objects.insert(name);
+                    }
+                    TypeKind::Interface(_) => {
+                        interfaces.insert(name);
+                    }
+                    _ => {}
+                }
+            }
+        }
     }
-    RX.with(|(schema_rx, directive_rx, scalar_rx, root_rx)| {
-        let mut labels = vec![];
-        let blocks = schema_rx.find_iter(text).count();
-        if blocks >= 2 {
-            labels.push("dup_schema_block");
-        }
-        if blocks == 0 {
-            labels.push("no_schema_block");
-        }
-        let mut seen = std::collections::BTreeSet::new();
-        if directive_rx.captures_iter(text).any(|c| !seen.insert(c[1].to_string())) {
-            labels.push("dup_directive");
-        }
-        let mut seen = std::collections::BTreeSet::new();
-        let mut dup = false;
-        let mut builtin = false;
-        for c in scalar_rx.captures_iter(text) {
-            if !seen.insert(c[1].to_string()) {
-                dup = true;
-            }
-            if ["Int", "Float", "String", "Boolean", "ID"].contains(&&c[1]) {
-                builtin = true;
-            }
-        }
-        if dup {
-            labels.push("dup_scalar");
-        }
-        if builtin {
-            labels.push("builtin_redefined");
-        }
-        for c in root_rx.captures_iter(text) {
-            let root = &c[1];
-            let as_type = Regex::new(&format!(r"type\s+{}\b", regex::escape(root))).unwrap().is_match(text);
-            let as_iface = Regex::new(&format!(r"interface\s+{}\b", regex::escape(root))).unwrap().is_match(text);
-            if as_iface && !labels.contains(&"root_interface") {
-                labels.push("root_interface");
-            }
-            if !as_type && !as_iface && !labels.contains(&"root_undefined") {
-                labels.push("root_undefined");
-            }
-        }
-        labels
-    })
+    if blocks >= 2 {
+        labels.push("dup_schema_block");
+    }
+    if blocks == 0 {
+        labels.push("no_schema_block");
+    }
+    if dup_directive {
+        labels.push("dup_directive");
+    }
+    if dup_scalar {
+        labels.push("dup_scalar");
+    }
+    if builtin {
+        labels.push("builtin_redefined");
+    }
+    if roots.iter().any(|r| interfaces.contains(r)) {
+        labels.push("root_interface");
+    }
+    // (a schema block without a `query:` entry names no root type at all)
+    if roots.iter().any(|r| !objects.contains(r) && !interfaces.contains(r)) || (blocks >= 1 && roots.is_empty()) {
+        labels.push("root_undefined");
+    }
+    labels
 }
 
 /// strict replay of a text-target input (no known-finding tolerance)
